@@ -1,0 +1,5 @@
+//go:build !verif
+
+package tan
+
+func verifDefaults(*Options) {}
